@@ -830,6 +830,14 @@ def _construct(pr, specs):
         dyn_mask = loss.derivative_keys_dyn_loss.dyn_loss  # what the constructor chose
     elif s0["k"] == "t":
         dyn_mask = pr.tree(s0["m"], ParamsDict)  # no public way: installed with eqx.tree_at
+        # when the mask is one of the three named ones, obtain it from the public `from_str` on the ParamsDict
+        # (the ParamsDict branch of `_get_masked_parameters`): it must be the same boolean tree
+        m = [bool(x) for x in s0["m"]]
+        named = {"both": [True] * len(m), "nn_params": [True] + [False] * (len(m) - 1),
+                 "eq_params": [False] + [True] * (len(m) - 1)}
+        for name, mm in named.items():
+            if mm == m:
+                dyn_mask = pr.dk_cls.from_str(params=pr.params, dyn_loss=name).dyn_loss
     else:
         raise RuntimeError("the dynamic term of a system loss has no string specification")
     return (dkd, dyn_mask)
